@@ -163,8 +163,10 @@ pub fn build(spec: &CorpusSpec, repo: &Path, verif: &Path) -> Vec<Case> {
             let style = rng.below(3);
             while text.len() < *size {
                 match style {
-                    0 => text.push_str("\n// padding padding padding padding padding padding padding padding"),
-                    1 => text.insert_str(0, "/* padding padding padding padding padding padding padding */\n"),
+                    // comments are dense in 2-, 3- and 4-byte UTF-8 characters: a read boundary (buffer
+                    // size, short read) at an arbitrary byte offset mostly falls inside a character
+                    0 => text.push_str("\n// p\u{e4}dding \u{2713}\u{1f600}\u{e4}\u{2713}\u{1f600}\u{e4}\u{2713}\u{1f600}\u{e4}\u{2713}\u{1f600}\u{e4}\u{2713}\u{1f600}\u{e4}\u{2713}\u{1f600}\u{e4}\u{2713}\u{1f600}\u{e4}"),
+                    1 => text.insert_str(0, "/*\u{2713}\u{1f600}\u{e4} \u{2713}\u{1f600}\u{e4}\u{2713}\u{1f600}\u{e4}\u{2713}\u{1f600}\u{e4}\u{2713}\u{1f600}\u{e4}\u{2713}\u{1f600}\u{e4}\u{2713}\u{1f600}\u{e4} */\n"),
                     _ => text.push_str("\n                                                                "),
                 }
             }
